@@ -109,13 +109,20 @@ def parseArg (toks : List String) : Option (Res ArgDef × Option String) := do
     | some hx => (word hx).bind (·.head?)
     | none => some ','
   let flagInit := (kv toks "init") == some "1"
+  -- fmt=upper|lower: addFormat( uppercase() / lowercase()); in the protocol for string and int arguments only
+  let fmt ← match kv toks "fmt" with
+    | some "upper" => if kind = .str || kind = .int then some Fmt.upper else none
+    | some "lower" => if kind = .str || kind = .int then some Fmt.lower else none
+    | some _ => none
+    | none => some Fmt.none
   let r : Res ArgDef := do
     let key ← Key.parse keySpec.toList
     let checks ← checks.mapM id
     let cs ← cons.mapM (fun (ct, spec) => do let ks ← parseKeys spec; pure (ct, ks))
     pure { key := key, kind := kind, vmode := vmode, card := card, mandatory := toks.contains "mandatory",
            checks := checks, constraints := cs, multi := toks.contains "multi", sep := sep,
-           flagValue := !flagInit, deprecated := toks.contains "deprecated", mixIncSet := toks.contains "mix" }
+           flagValue := !flagInit, deprecated := toks.contains "deprecated", mixIncSet := toks.contains "mix",
+           fmt := fmt }
   pure (r, kv toks "init")
 
 def showPairs (ps : List (ArgDef × ArgSt)) : String :=
